@@ -4,3 +4,10 @@ import "github.com/siyul-park/uniflow/pkg/types"
 
 // Map is types.Map (alias for the harness packages).
 type Map = types.Map
+
+// Small constructors for directed scenarios written in the harness packages.
+type Value = types.Value
+
+func IntV(n int) types.Value                { return types.NewInt(n) }
+func NewMap(pairs ...types.Value) types.Map { return types.NewMap(pairs...) }
+func True() types.Value                     { return types.True }
